@@ -40,13 +40,25 @@ PROPS = {
         technique='contract-based deductive verification (Verus contracts on extracted WAL reader/appender/replay over a file model + inductive log lemmas)',
         design_ref='DESIGN.md §4 C17',
     ),
+    'C20': dict(
+        title='ORDER BY sorts and SKIP/LIMIT slice it',
+        kani=['c20_order'],
+        verus=[],
+        pairs={},
+        level_text='TBD', level_note='TBD', technique='TBD', design_ref='DESIGN.md §4 C20',
+    ),
+    'C23': dict(
+        title='Expression evaluation obeys Cypher laws',
+        kani=['c23_equality', 'c23_compare', 'c23_numeric', 'c23_arith'],
+        verus=[],
+        pairs={},
+        level_text='TBD', level_note='TBD', technique='TBD', design_ref='DESIGN.md §4 C23',
+    ),
 }
 
 # claimed in DESIGN.md but whose check is not built yet: listed under not_applicable until it is
 PENDING = {
     'C18': 'check under construction (claimed in DESIGN.md §4; will move to checks when its units are committed)',
-    'C20': 'check under construction (claimed in DESIGN.md §4; will move to checks when its units are committed)',
-    'C23': 'check under construction (claimed in DESIGN.md §4; will move to checks when its units are committed)',
     'C26': 'check under construction (claimed in DESIGN.md §4; will move to checks when its units are committed)',
     'C28': 'check under construction (claimed in DESIGN.md §4; will move to checks when its units are committed)',
 }
